@@ -9,10 +9,12 @@ import (
 	"path/filepath"
 	"regexp"
 	"strings"
+	"time"
 
 	"sigs.k8s.io/yaml"
 
 	"helm.sh/helm/v4/pkg/action"
+	chart "helm.sh/helm/v4/pkg/chart/v2"
 	chartutil "helm.sh/helm/v4/pkg/chart/v2/util"
 	"helm.sh/helm/v4/pkg/cli/values"
 	"helm.sh/helm/v4/pkg/engine"
@@ -48,6 +50,26 @@ type Obs11 struct {
 	Hooks     [][]string `json:"hooks"`     // instances that contributed a hook
 	Notes     [][]string `json:"notes"`     // instances whose NOTES.txt is in the notes
 	Crds      [][]string `json:"crds"`      // instances whose crds/ file is in the output
+	// run C (a seeded share of the cases): a real action.Install with the case's user values over the simulated
+	// cluster, then action.Upgrade with NO values in the default / reuse / reset-then-reuse / reset modes
+	Hist      bool       `json:"hist"`
+	IOk       bool       `json:"iok"`
+	IErr      string     `json:"ierr"`
+	ISchema   bool       `json:"ischema"`   // the install was rejected by the schema gate
+	ICrds     [][]string `json:"icrds"`     // chart directories (path of original chart names) whose CRD is in the cluster after the install
+	IManifest [][]string `json:"imanifest"` // instances with a document in the stored manifest of the install
+	Ups       []UpObs    `json:"ups"`
+}
+
+// UpObs is what one upgrade of the history route produced.
+type UpObs struct {
+	Mode     string     `json:"mode"` // upgrade | upgrade-reuse | upgrade-reset-then-reuse | upgrade-reset
+	Ok       bool       `json:"ok"`
+	Err      string     `json:"err"`
+	Schema   bool       `json:"schema"`   // rejected by the schema gate (nothing to judge then)
+	Manifest [][]string `json:"manifest"` // instances with a document in the new revision's manifest
+	Hooks    [][]string `json:"hooks"`    // instances that contributed a hook
+	Stored   [][]string `json:"stored"`   // instances left in the chart stored with the new revision
 }
 
 const schemaErrPrefix = "values don't meet the specifications of the schema(s) in the following chart(s):"
@@ -123,7 +145,8 @@ func catch(err *string) {
 // Run11 runs one C11 case on the real code.
 func Run11(cf CaseFile, tmp string) Obs11 {
 	o := Obs11{ID: cf.ID, Shape: cf.Shape, Case: cf.Case, Rendered: [][]string{}, Seen: []Seen{}, Stray: []string{},
-		Named: []string{}, Manifest: [][]string{}, Hooks: [][]string{}, Notes: [][]string{}, Crds: [][]string{}}
+		Named: []string{}, Manifest: [][]string{}, Hooks: [][]string{}, Notes: [][]string{}, Crds: [][]string{},
+		ICrds: [][]string{}, IManifest: [][]string{}, Ups: []UpObs{}}
 	var c Case
 	if err := json.Unmarshal(cf.Case, &c); err != nil {
 		o.AErr = "bad case: " + err.Error()
@@ -132,6 +155,10 @@ func Run11(cf CaseFile, tmp string) Obs11 {
 	}
 	runA(&c, tmp, &o)
 	runB(&c, tmp, &o)
+	if cf.Hist {
+		o.Hist = true
+		runC(&c, tmp, &o)
+	}
 	return o
 }
 
@@ -262,4 +289,101 @@ func runB(c *Case, tmp string, o *Obs11) {
 	}
 	o.Manifest, o.Hooks, o.Notes, o.Crds = instList(man), instList(hooks), instList(notes), instList(crds)
 	o.BOk = true
+}
+
+func manifestInsts(man string) map[string]bool {
+	out := map[string]bool{}
+	for _, m := range sourceRe.FindAllStringSubmatch(man, -1) {
+		if inst, kind, ok := instOf(m[1]); ok && kind == "probe" {
+			out[inst] = true
+		}
+	}
+	return out
+}
+
+// runC: the history route. Everything is the real pkg/action code over the simulated cluster (Secrets storage).
+func runC(c *Case, tmp string, o *Obs11) {
+	defer catch(&o.IErr)
+	vals, err := c.UserValues(tmp)
+	if err != nil {
+		o.IErr = "values: " + err.Error()
+		return
+	}
+	ch, err := c.Load(BuildOpts{})
+	if err != nil {
+		o.IErr = "load: " + err.Error()
+		return
+	}
+	e := newEnv()
+	rel, err := newInstall(e.config(), false).Run(ch, vals)
+	// whatever the outcome: which CRDs reached the cluster?
+	crds := [][]string{}
+	for _, k := range e.sim.Keys() {
+		if k.Resource == "customresourcedefinitions" {
+			if rp, ok := rawPathOfCRD(k.Name); ok {
+				crds = append(crds, rp)
+			} else {
+				o.Stray = append(o.Stray, "crd "+k.Name)
+			}
+		}
+	}
+	o.ICrds = crds
+	if err != nil {
+		o.IErr = err.Error()
+		o.ISchema = strings.Contains(o.IErr, schemaErrPrefix)
+		return
+	}
+	o.IOk = true
+	o.IManifest = instList(manifestInsts(rel.Manifest))
+	type mode struct {
+		name           string
+		reuse, rtr, rs bool
+	}
+	// the reset comes last: the other three leave the deployed user values in the record
+	for _, m := range []mode{{"upgrade", false, false, false}, {"upgrade-reuse", true, false, false},
+		{"upgrade-reset-then-reuse", false, true, false}, {"upgrade-reset", false, false, true}} {
+		u := UpObs{Mode: m.name, Manifest: [][]string{}, Hooks: [][]string{}, Stored: [][]string{}}
+		func() {
+			defer catch(&u.Err)
+			nch, err := c.Load(BuildOpts{})
+			if err != nil {
+				u.Err = "load: " + err.Error()
+				return
+			}
+			up := action.NewUpgrade(e.config())
+			up.Namespace = relNS
+			up.Timeout = 5 * time.Second
+			up.ReuseValues, up.ResetThenReuseValues, up.ResetValues = m.reuse, m.rtr, m.rs
+			nrel, err := up.Run(relName, nch, map[string]interface{}{}) // no values given
+			if err != nil {
+				u.Err = err.Error()
+				u.Schema = strings.Contains(u.Err, schemaErrPrefix)
+				return
+			}
+			u.Ok = true
+			u.Manifest = instList(manifestInsts(nrel.Manifest))
+			hooks := map[string]bool{}
+			for _, h := range nrel.Hooks {
+				if inst, _, ok := instOf(h.Path); ok {
+					hooks[inst] = true
+				}
+			}
+			u.Hooks = instList(hooks)
+			stored := map[string]bool{}
+			var walk func(prefix string, x *chart.Chart)
+			walk = func(prefix string, x *chart.Chart) {
+				stored[prefix] = true
+				for _, d := range x.Dependencies() {
+					p := d.Name()
+					if prefix != "" {
+						p = prefix + "/" + d.Name()
+					}
+					walk(p, d)
+				}
+			}
+			walk("", nrel.Chart)
+			u.Stored = instList(stored)
+		}()
+		o.Ups = append(o.Ups, u)
+	}
 }
